@@ -132,6 +132,8 @@ def hostile(rng):
     vals = [
         ("inf", float("inf")), ("-inf", float("-inf")), ("nan", float("nan")), ("'inf'", "inf"), ("'-Infinity'", "-Infinity"), ("'nan'", "nan"),
         ("b'inf'", b"inf"), ("Decimal(Infinity)", D("Infinity")), ("Decimal(NaN)", D("NaN")), ("Decimal(sNaN)", D("sNaN")), ("10**400", 10 ** 400),
+        # an int beyond the interpreter's int-to-str digit limit: repr() and str() of it raise ValueError
+        ("10**5000", 10 ** 5000), ("[10**5000]", [10 ** 5000]), ("{'a': 10**5000}", {"a": 10 ** 5000}),
         ("-10**30", -10 ** 30), ("1e308", 1e308), ("1e-320", 1e-320), ("'1e400'", "1e400"), ("'9'*500", "9" * 500), ("complex", 1 + 2j), ("complex-nan", complex("nan")),
         ("''", ""), ("' '", " "), ("'\\x00'", "\x00"), ("non-ascii", "٣é\U0001f600"), ("'x'*10000", "x" * 10000), ("b''", b""), ("bad-utf8", b"\xff\xfe\xfa"),
         ("bytearray", bytearray(b"\xff")), ("memoryview", memoryview(b"12")), ("None", None), ("True", True), ("[]", []), ("()", ()), ("{}", {}), ("set()", set()),
